@@ -304,10 +304,15 @@ class Play:
             ctx.sm.add_listener(self.drv)
         return ctx
 
-    def attach(self, ctx, p):
+    def attach(self, ctx, p, via="listener"):
         if p in ctx.H.objs:
             try:
-                ctx.sm.add_listener(ctx.H.objs[p])
+                if via == "observer":
+                    ctx.sm.add_observer(ctx.H.objs[p])  # the deprecated spelling
+                elif via == "with-bystander":
+                    ctx.sm.add_listener(core.Bystander(), ctx.H.objs[p])  # several listeners in one call
+                else:
+                    ctx.sm.add_listener(ctx.H.objs[p])
             except HarnessError:
                 raise
             except Exception as e:
@@ -448,7 +453,7 @@ class Play:
 
     async def op_attach(self, step):
         ctx = self.ctxs[step.get("target", "main")]
-        self.attach(ctx, step["prov"])
+        self.attach(ctx, step["prov"], step.get("via", "listener"))
         self.labels.add("attach:" + ("repeat" if step.get("repeat") else "first"))
 
     async def op_reconstruct(self, step):
